@@ -62,6 +62,7 @@ FullSyncZeroCopy<SlotType, OgreAllocatorType, BUFFER_SIZE> {
     fn publish<F: FnOnce(&mut SlotType)>(&self, setter: F) -> (Option<NonZeroU32>, Option<F>) {
         match self.leak_slot() {
             Some( (slot_ref, slot_id) ) => {
+                #[cfg(feature = "verif")] crate::verif::yield_point("zc.slot_write");
                 setter(slot_ref);
                 (self.publish_leaked_id(slot_id), None)
             },
@@ -73,6 +74,7 @@ FullSyncZeroCopy<SlotType, OgreAllocatorType, BUFFER_SIZE> {
     fn publish_movable(&self, item: SlotType) -> (Option<NonZeroU32>, Option<SlotType>) {
         match self.leak_slot() {
             Some( (slot_ref, slot_id) ) => {
+                #[cfg(feature = "verif")] crate::verif::yield_point("zc.slot_write");
                 unsafe { std::ptr::write(slot_ref, item); }
                 (self.publish_leaked_id(slot_id), None)
             }
